@@ -797,4 +797,3 @@ package websocket
 //@ ensures [ext-echo] {C14} err == nil && result0.copts != nil ==> ghhdr(specRespHeader(w)).vals["Sec-WebSocket-Extensions"] == specOptsHeader(result0.copts.clientNoContextTakeover, result0.copts.serverNoContextTakeover)
 //@ ensures [compression-only-if-enabled] {C14} err == nil && (opts == nil || opts.CompressionMode == CompressionDisabled) ==> result0.copts == nil
 //@ ensures [forbidden] {C12} specValidUpgrade(r) && !(opts != nil && opts.InsecureSkipVerify) && !specOriginAuthorised(r, specOriginPatterns(opts)) ==> err != nil && ghresp(w).status == 403 && !ghresp(w).hijacked
-
